@@ -428,6 +428,10 @@ def run(ctx, rep):
     # tip vectors handed to the likelihood must be the ones of *this* request (ambiguity flag, index set): no memo keyed on less
     from props import c11
     c11.check_memo_keys(ctx, rep, rule='C01.W', only=lambda m: m.name in ('torchtree.evolution.site_pattern', 'torchtree.evolution.alignment', 'torchtree.evolution.attribute_pattern'))
+    # tip STATES: the index handed to the tip-state kernels for a gap / unknown symbol is that of the all-ones column they append (C02.M clamp rule)
+    from props import c02 as _c02
+    from sa.report import RuleProxy as _RPt
+    _c02.check_tip_state_clamp(ctx, _RPt(rep, 'C01.W', 'tip-states::'))
     for name, k in sorted(ks.items()):
         check_kernel(ctx, rep, name, k)
     disc = {n: sibling_tuple(k) for n, k in ks.items() if len(k.params) > 5}
